@@ -4,9 +4,10 @@ import Oas3Model.Driver.Sse
 import Oas3Model.Driver.Resp
 import Oas3Model.Driver.Path
 import Oas3Model.Driver.Client
+import Oas3Model.Driver.Valid
 open Lean Oas3.Driver
 
-def allOps : List (String × Handler) := Oas3.Driver.Naming.ops ++ Oas3.Driver.Sse.ops ++ Oas3.Driver.Resp.ops ++ Oas3.Driver.Path.ops ++ Oas3.Driver.Client.ops
+def allOps : List (String × Handler) := Oas3.Driver.Naming.ops ++ Oas3.Driver.Sse.ops ++ Oas3.Driver.Resp.ops ++ Oas3.Driver.Path.ops ++ Oas3.Driver.Client.ops ++ Oas3.Driver.Valid.ops
 
 def handleLine (line : String) : String :=
   match Json.parse line with
